@@ -231,6 +231,36 @@ func c14Program(cs *caseSet, nVal int) {
 			}
 		}
 	}
+	// +0 against -0 at every place a double can sit in a wire value (equal everywhere: bare, in lists,
+	// as set elements, as map keys and values, inside structs in containers)
+	{
+		pz, nz := &wv.V{T: wv.TDouble, U: 0}, &wv.V{T: wv.TDouble, U: 1 << 63}
+		one := &wv.V{T: wv.TI32, U: 1}
+		shapes := func(z *wv.V) []*wv.V {
+			st := &wv.V{T: wv.TStruct, Fields: []wv.Field{{ID: 1, V: z}}}
+			return []*wv.V{
+				z,
+				{T: wv.TList, ET: wv.TDouble, Items: []*wv.V{z, {T: wv.TDouble, U: 0x3ff0000000000000}}},
+				{T: wv.TSet, ET: wv.TDouble, Items: []*wv.V{z}},
+				{T: wv.TSet, ET: wv.TDouble, Items: []*wv.V{{T: wv.TDouble, U: 0x4000000000000000}, z}},
+				{T: wv.TMap, KT: wv.TDouble, ET: wv.TI32, Items: []*wv.V{z, one}},
+				{T: wv.TMap, KT: wv.TI32, ET: wv.TDouble, Items: []*wv.V{one, z}},
+				{T: wv.TMap, KT: wv.TDouble, ET: wv.TDouble, Items: []*wv.V{z, z}},
+				st,
+				{T: wv.TSet, ET: wv.TStruct, Items: []*wv.V{st}},
+				{T: wv.TMap, KT: wv.TStruct, ET: wv.TI32, Items: []*wv.V{st, one}},
+				{T: wv.TList, ET: wv.TSet, Items: []*wv.V{{T: wv.TSet, ET: wv.TDouble, Items: []*wv.V{z}}}},
+			}
+		}
+		ps, ns := shapes(pz), shapes(nz)
+		for i := range ps {
+			for _, pair := range [][2]*wv.V{{ps[i], ns[i]}, {ns[i], ps[i]}} {
+				op := "weq " + pair[0].Text() + " " + pair[1].Text()
+				cs.add(opCase{Kind: "C14 ValuesAreEqual zero-sign", Impl: op, Model: op, Want: b01s(logicalEq(pair[0], pair[1])), nontrivial: true,
+					Why: "wire.ValuesAreEqual must treat +0 and -0 as the same double wherever it occurs"})
+			}
+		}
+	}
 	// pairs of arbitrary wire values for wire.ValuesAreEqual
 	for i := 0; i < nVal*4; i++ {
 		cfg := wv.GenCfg{MaxDepth: 1 + r.Intn(3), MaxLen: r.Pick(0, 1, 2, 3), MaxBin: r.Pick(0, 1, 4)}
